@@ -34,3 +34,16 @@ func (r *Rng) Read(p []byte) (int, error) {
 	return len(p), nil
 }
 func Pick[T any](r *Rng, xs []T) T { return xs[r.Intn(len(xs))] }
+
+// Perm: a permutation of 0..n-1
+func (r *Rng) Perm(n int) []int {
+	p := make([]int, n)
+	for i := range p {
+		p[i] = i
+	}
+	for i := n - 1; i > 0; i-- {
+		j := r.Intn(i + 1)
+		p[i], p[j] = p[j], p[i]
+	}
+	return p
+}
